@@ -17,3 +17,17 @@ def register(w):
     w.macro("legal_nohistory", ["A"], "forall[Node](lambda n: implies(n in A and n != None, n.type != 'history'))")
     w.macro("legal", ["A"],
             "legal_root(A) and legal_parents(A) and legal_compound_some(A) and legal_compound_one(A) and legal_parallel(A) and legal_nohistory(A)")
+
+    # ---- contract E (entering): local legality of one node n inside a set S, phrased like the legal_* clauses above
+    w.macro("okn", ["n", "S"],
+            "n.type != 'history'"
+            " and implies(n.type == 'compound' and has_kids(n), exists[Node](lambda c: c != None and c in S and c.parent == n))"
+            " and implies(n.type == 'compound', forall[Node, Node](lambda c, d: implies(c in S and d in S and c != None and d != None and c.parent == n and d.parent == n, c == d)))"
+            " and implies(n.type == 'parallel', forall[Node](lambda c: implies(c != None and c.parent == n and c.type != 'history', c in S)))")
+    # the listed states are pairwise unrelated, none is a history node, each hangs below an active state (or is the root),
+    # and nothing in their subtrees is active yet: the shape of start() and of every recursive call of the default descent
+    w.macro("fresh_forest", ["L", "S"],
+            "forall[int, int](lambda i, j: implies(0 <= i and i < len(L) and 0 <= j and j < len(L) and i != j, not anc(L[i], L[j])))"
+            " and forall[int](lambda i: implies(0 <= i and i < len(L), L[i].type != 'history' and (L[i] == root or L[i].parent in S)))"
+            " and forall[int, Node](lambda i, n: implies(0 <= i and i < len(L) and anc(n, L[i]), not (n in S)))")
+
